@@ -158,7 +158,10 @@ func writeTag(w io.Writer, tag *Tag, timestampDelta uint32) error {
 	offset += 4
 
 	// timestamp
-	timestamp := tag.Timestamp - timestampDelta
+	timestamp := uint32(0)
+	if tag.Timestamp > timestampDelta { // 早于首个 Tag 的包（如略滞后的音频）按 0 输出，避免无符号回绕成巨大的时间戳
+		timestamp = tag.Timestamp - timestampDelta
+	}
 	binary.BigEndian.PutUint32(tagHeader[offset:], (timestamp<<8)|(timestamp>>24))
 	offset += 4
 
